@@ -103,6 +103,19 @@ fn run_tasks(v: &Value) -> Value {
             *done.borrow_mut() += 1;
         });
     }
+    // longest sleep any task can ask for: after that many consecutive zero-progress calls (the budget grows by one each
+    // time) a correct driver must have reached the next wake-up; more than that means tasks were lost -> stop, "stalled".
+    let mut max_d = 1u64;
+    for t in tasks.iter() {
+        if let Some(st) = t.get("steps").and_then(|s| s.as_array()) {
+            for s in st {
+                max_d = max_d.max(s.get(1).and_then(|x| x.as_u64()).unwrap_or(0));
+            }
+        }
+    }
+    let stall_limit = max_d.saturating_add(8).min(max_calls);
+    let mut zero_streak = 0u64;
+    let mut stalled = false;
     let mut results: Vec<Value> = Vec::new();
     let mut calls = 0u64;
     let mut bi = 0usize;
@@ -132,7 +145,13 @@ fn run_tasks(v: &Value) -> Value {
         }
         if ev == -1 && r.cycles_executed == 0 {
             cur = cur.saturating_add(1);
+            zero_streak += 1;
+            if zero_streak > stall_limit && cur > max_d {
+                stalled = true;
+                break;
+            }
         } else {
+            zero_streak = 0;
             bi += 1;
             cur = budgets.get(bi).copied().unwrap_or(*budgets.last().unwrap_or(&1));
         }
@@ -141,7 +160,7 @@ fn run_tasks(v: &Value) -> Value {
     let em_v: Vec<Value> = emits.borrow().iter().map(|(a, b, c)| json!([a, b, c])).collect();
     let done_n = *done.borrow();
     json!({"id": v.get("id").cloned().unwrap_or(Value::Null), "log": log_v, "emits": em_v, "results": results,
-           "done": done_n, "calls": calls, "clock_end": driver.clock(), "panic": panic})
+           "done": done_n, "calls": calls, "clock_end": driver.clock(), "panic": panic, "stalled": stalled})
 }
 
 fn run_cpu(v: &Value) -> Value {
